@@ -49,8 +49,18 @@ def atoms_n(n):
     return out
 
 
+NUMFMT = "fixed"  # how numbers are written: fixed | exp | plus | nozero (switched by the 'formats' cases)
+
+
 def fmt(x, nd):
-    return ("%." + str(nd) + "f") % x
+    s = ("%." + str(nd) + "f") % x
+    if NUMFMT == "exp":
+        return ("%." + str(nd + 3) + "e") % float(s)
+    if NUMFMT == "plus":
+        return s if s.startswith("-") else "+" + s
+    if NUMFMT == "nozero":
+        return s.replace("0.", ".", 1) if s.startswith("0.") else (s.replace("-0.", "-.", 1) if s.startswith("-0.") else s)
+    return s
 
 
 def esd(x, on, nd=4):
@@ -227,6 +237,10 @@ def cases(tier, seed):
     for n in (1, 12):
         for lo in range(0, len(CONFIGS), 12):
             cs.append({"kind": "cif", "cell": 2 if tier == "thorough" else 0, "lo": lo, "hi": lo + 12, "natoms": n})
+    for f_ in ("exp", "plus", "nozero"):
+        for lo in range(0, len(CONFIGS), 48):
+            cs.append({"kind": "cif", "cell": 0, "lo": lo, "hi": lo + 48, "natoms": 3, "numfmt": f_})
+    cs.append({"kind": "cif-history", "tier": tier})
     syms = pdb_symbols()
     for lo in range(0, len(syms), 4):
         cs.append({"kind": "cif-symbols", "lo": lo, "hi": lo + 4})
@@ -274,11 +288,50 @@ def check_case(case):
 
     r = CaseResult()
     tmp = tempfile.mkdtemp(prefix="xmc_c17_", dir="/dev/shm" if os.path.isdir("/dev/shm") else None)
+    global NUMFMT
+    NUMFMT = case.get("numfmt", "fixed")
     try:
+        if case["kind"] == "cif-history":
+            # one process reads files with DIFFERENT element sets one after the other (covering walk: every ordered pair of
+            # file kinds consecutively); each result is compared with its own file, and every earlier result is re-verified
+            # after each later read (nothing may be shared between the atom lists of different files)
+            from ..core import covering_walk
+
+            kinds = [(1, ("Uiso", False, True, None, "disp", False)), (3, ("Uani", True, True, None, "disp", True)), (12, ("mixed", False, False, None, "disp", False)),
+                     (2, ("Biso", False, True, "_atom_site_symmetry_multiplicity", "nodisp", False)), (12, ("Uiso", True, True, None, "absent", False))]
+            held = []
+            for step, ki in enumerate(covering_walk(len(kinds))):
+                n_at, cfg = kinds[ki]
+                txt, exp = gen_cif(cfg, cell=CELLS[step % 3], natoms=n_at)
+                fn = os.path.join(tmp, "h%d.cif" % step)
+                with open(fn, "w") as f:
+                    f.write(txt)
+                key = "cif-history:step%d:kind%d" % (step, ki)
+                b = structure.build_atomlist()
+                b.CIFread(fn)
+                compare_atomlist(r, key, b.atomlist, exp, structure, "P21/c")
+                held.append((key, b.atomlist, exp))
+                for hk, hal, hexp in held[-4:-1]:
+                    compare_atomlist(r, hk + ":re-verified-after-step%d" % step, hal, hexp, structure, "P21/c")
+                r.states += 1
+            # PDB after CIF and CIF after PDB in the same process
+            atoms = [("ATOM", 1, "S1", "S", (1.0, 2.0, 3.0), 1.0, 10.0), ("HETATM", 2, "CU2", "CU", (-1.0, 2.5, 3.0), 0.5, 20.0)]
+            cellp = (10.0, 12.5, 20.0, 90.0, 90.0, 90.0)
+            fnp = os.path.join(tmp, "h.pdb")
+            with open(fnp, "w") as f:
+                f.write(gen_pdb("P 1 21/c 1", cellp, [[0.1, 0, 0, 0], [0, 0.08, 0, 0], [0, 0, 0.05, 0]], atoms))
+            bp = structure.build_atomlist()
+            bp.PDBread(fnp)
+            r.require(bp.atomlist.dispersion == {"S": None, "CU": None}, "cif-history:pdb-after-cif:dispersion", "a PDB read after CIF reads carries only its own elements",
+                      {"S": None, "CU": None}, bp.atomlist.dispersion)
+            for hk, hal, hexp in held[-2:]:
+                compare_atomlist(r, hk + ":re-verified-after-pdb", hal, hexp, structure, "P21/c")
+            r.nontrivial.add("cif-history")
+            return r
         if case["kind"] == "cif":
             cell = CELLS[case["cell"]]
             for ci, cfg in enumerate(CONFIGS[case["lo"]:case["hi"]]):
-                key = "cif:cell%d:n%d:%s" % (case["cell"], case["natoms"], "/".join(str(x) for x in cfg))
+                key = "cif:cell%d:n%d:%s%s" % (case["cell"], case["natoms"], "/".join(str(x) for x in cfg), "" if NUMFMT == "fixed" else ":numfmt=" + NUMFMT)
                 txt, exp = gen_cif(cfg, cell=cell, natoms=case["natoms"])
                 fn = os.path.join(tmp, "f%d.cif" % ci)
                 with open(fn, "w") as f:
